@@ -167,6 +167,36 @@ MDiffers == (Done /\ HasM) => \E x \in VarSet, q \in ParSet : ConcRC(NetM, x, q,
 \* negative values really occur, with non-zero coefficients attached
 SignedWitness == (Done /\ nm = "sgn") => (RLt(env["g"], RZero) /\ ~RIsZero(Unscaled(N, "v1", "g", env)))
 
+(***************************************************************************)
+(* SCALE.  Rates are homogeneous in the rate constants (degree KDeg) and in *)
+(* the pools (variables and the pool-size parameter T; degree XDeg), so     *)
+(* multiplying every rate constant by sk and every pool by sx multiplies    *)
+(* the UNSCALED elasticity of rate r w.r.t. symbol y by                     *)
+(*      sk^KDeg(r) * sx^XDeg(r) / scale(y)                                  *)
+(* and leaves every SCALED elasticity unchanged.  TLC checks this on every  *)
+(* point with small exact factors; the replay applies it with sk = 2^-30,   *)
+(* sx = 2^-7 (exact in binary floating point) and judges every unscaled     *)
+(* coefficient of the scaled twin RELATIVELY: a coefficient of 1e-9 is a    *)
+(* number, not noise.                                                       *)
+(***************************************************************************)
+Consts == ParSet \ {"T", "frac"}
+Pools  == VarSet \cup (ParSet \cap {"T"})
+KDeg(r) == HDeg(Rate(N, r), Consts)
+XDeg(r) == HDeg(Rate(N, r), Pools)
+ScaleOf(y, sk, sx) == IF y \in Consts THEN sk ELSE IF y \in Pools THEN sx ELSE ROne
+EnvS(sk, sx) == [y \in DOMAIN env |-> RMul(env[y], ScaleOf(y, sk, sx))]
+Factor(r, y, sk, sx) == RDiv(RMul(RPowZ(sk, KDeg(r)), RPowZ(sx, XDeg(r))), ScaleOf(y, sk, sx))
+HomAt(sk, sx) ==
+    \A r \in RxnSet : \A y \in VarSet \cup ParSet :
+        LET u1 == Unscaled(N, r, y, env)
+            u2 == Unscaled(N, r, y, EnvS(sk, sx))
+            s1 == Scaled(N, r, y, env)
+            s2 == Scaled(N, r, y, EnvS(sk, sx))
+        IN  /\ (IsBad(u1) <=> IsBad(u2)) /\ (~IsBad(u1) => u2 = RMul(Factor(r, y, sk, sx), u1))
+            /\ (IsBad(s1) <=> IsBad(s2)) /\ (~IsBad(s1) => s2 = s1)
+            /\ Flux(N, r, EnvS(sk, sx)) = RMul(RMul(RPowZ(sk, KDeg(r)), RPowZ(sx, XDeg(r))), Flux(N, r, env))
+Homogeneous == Done => (HomAt(R(1, 2), ROne) /\ HomAt(ROne, RInt(3)) /\ HomAt(R(1, 2), RInt(3)))
+
 Table(rows, cols, F(_, _)) == [a \in rows |-> [b \in cols |-> F(a, b)]]
 
 Emit == (EmitOn /\ Done) =>
@@ -177,6 +207,8 @@ Emit == (EmitOn /\ Done) =>
          evs |-> Table(VarSet, RxnSet, LAMBDA s, r : Scaled(N, r, s, env)),
          epu |-> Table(ParSet, RxnSet, LAMBDA s, r : Unscaled(N, r, s, env)),
          eps |-> Table(ParSet, RxnSet, LAMBDA s, r : Scaled(N, r, s, env)),
+         consts |-> Consts, pools |-> Pools,
+         kdeg |-> [r \in RxnSet |-> KDeg(r)], xdeg |-> [r \in RxnSet |-> XDeg(r)],
          hasss |-> HasSS(N),
          ss  |-> IF HasSS(N) THEN [x \in VarSet |-> SSValue(N, x, PEnv)] ELSE <<>>,
          ssflux |-> IF HasSS(N) THEN [r \in RxnSet |-> Eval(SSFluxExpr(N, r), PEnv)] ELSE <<>>,
